@@ -116,20 +116,21 @@ def stop_inv(ctx):
     sv = ctx.v("success")
     sv = sv if z3.is_expr(sv) else z3.BoolVal(bool(sv))
     return [("loop_continues_only_while_not_stopped", z3.Not(g["stopped"])),
-            ("success_flag_is_the_last_outcome", z3.Or(g["appended"] == g["appended0"], sv == g["last_success"]))]
+            ("success_flag_is_the_last_outcome", z3.Or(g["appended"] == 0, sv == g["last_success"])),
+            ("appended_counts_up", g["appended"] >= 0)]
 
 
 def stop_post(c):
     g = c.st.ghost
     sv = c.v("success")
     sv = sv if z3.is_expr(sv) else z3.BoolVal(bool(sv))
-    return z3.Or(g.get("appended", z3.IntVal(0)) == g.get("appended0", z3.IntVal(0)), sv == g["last_success"])
+    return z3.Or(g.get("appended", z3.IntVal(0)) == 0, sv == g["last_success"])
 
 
 def stop_ghost(c):
     g = c.st.ghost
-    a0 = g.get("appended", z3.IntVal(0))
-    return {"appended": a0, "appended0": a0, "stopped": z3.BoolVal(False), "last_success": g.get("last_success", z3.BoolVal(False))}
+    # every frame loop is entered with no frame appended yet (the slices start at the loop)
+    return {"appended": g.get("appended", z3.IntVal(0)), "stopped": z3.BoolVal(False), "last_success": g.get("last_success", z3.BoolVal(False))}
 
 
 class LmpSelf:
